@@ -18,9 +18,34 @@ inductive Req where
   | op (o : Op)
   | resolve (s : Option Spec)
   | jobs
+  | inCtx (c : Ctx) (r : Req)     -- `W@f…`, `S@s…`, `J@e`: the operation issued from inside a context
+
+def parseCtx : Char → Option Ctx
+  | 'f' => some .func
+  | 'g' => some .func2
+  | 'e' => some .evalStr
+  | 'b' => some .brace
+  | 'l' => some .loopBody
+  | 'r' => some .sourced
+  | 's' => some .subshell
+  | 'c' => some .cmdsubst
+  | _ => none
 
 def parseOp (t : Str) : Option Req :=
   match t with
+  | 'W' :: '@' :: c :: r =>
+    match parseCtx c, parseSched r with
+    | some c', some s => some (.inCtx c' (.op (.waitAll s)))
+    | _, _ => none
+  | 'S' :: '@' :: c :: r =>
+    match parseCtx c, splitOnChar ':' r with
+    | some c', [sp, sc] =>
+      match parseSpec sp, parseSched sc with
+      | some sp', some sc' => some (.inCtx c' (.op (.waitSpec sp' sc')))
+      | none, some sc' => some (.inCtx c' (.op (.waitSpec (.num 0) sc')))
+      | _, _ => none
+    | _, _ => none
+  | ['J', '@', c] => (parseCtx c).map (fun c' => .inCtx c' .jobs)
   | 'L' :: _ => some (.op (.launch 1 false))
   | 'F' :: r => (parseNat? r).map (fun k => .op (.finish k))
   | ['P'] => some (.op .poll)
@@ -78,13 +103,29 @@ def extraOf (s : St) (r : Req) (s' : St) : Str :=
     else if (resolveIdx s.table sp).isSome then "ok".toList else "fail".toList
   | _ => ['-']
 
+/-- state after the request and the op-specific extra field -/
+def exec (s : St) : Req → St × Str
+  | .inCtx c r =>
+    let ops := match r with | .op o => [o] | _ => []
+    if c.forks then
+      -- the clone runs the request on its own (empty) table; the parent only sees the environment move on
+      let child := forkChild s
+      let child' := run child ops
+      (runIn c s ops, extraOf child r child')
+    else
+      let s' := runIn c s ops
+      (s', extraOf s r s')
+  | r =>
+    let s' := match r with | .op o => step s o | _ => s
+    (s', extraOf s r s')
+
 def runDump : St → List Req → List Str
   | _, [] => []
   | s, r :: rs =>
     if s.stuck then "stuck".toList :: runDump s rs
     else
-      let s' := match r with | .op o => step s o | _ => s
-      dump s' (extraOf s r s') :: runDump s' rs
+      let res := exec s r
+      dump res.1 res.2 :: runDump res.1 rs
 
 def parseRule : Str → Option IdRule
   | ['l', 'e', 'n'] => some .lenPlus1
